@@ -18,7 +18,7 @@ RULE = ("differential against recorded observations of the reference (pinned) ve
         "0..1100 x 8 seeds, crc32c table and SSE4.2 variants for every length 0..1100, and raid_gen parity of deterministic stripes "
         "are compared with stored vectors and with the frozen reference sources; (c) 60 content files WRITTEN by the reference version for "
         "constructed states with boundary values (64-bit time-stamps and inodes, varint boundaries, every record kind, format 2 and 3) must "
-        "load, print what the reference printed in list -l / status -G -l, and be written back bit for bit. One vendored array has map records out of position order; every vendored array is also verified and repaired after a brand-new empty data disk was added to the configuration. distinct = (array, subset) + vector sets.")
+        "load, print what the reference printed in list -l / status -G -l, and be written back bit for bit. One vendored array has map records out of position order; every vendored array is also verified and repaired after a brand-new empty data disk was added to the configuration. Arrays with split parity also lose ONE split file of a level (every non-last split must have its recorded size again after fix). distinct = (array, subset) + vector sets.")
 
 
 def truth_of(a):
